@@ -85,6 +85,10 @@ def run(e: Engine, rep: Report):
     n4_catch_all(e, rep)
     n4_dns(e, rep)
     n8(e, rep)
+    rep.rule('N9', 'the pass over envelope.recipients that sends RCPT runs '
+             'to completion: no break / return / filter, one RCPT per '
+             'recipient')
+    n9(e, rep)
     rep.floor('N1', 9, 'relay implementations / set sites')
     rep.floor('N2', 12, 'client command sites')
 
@@ -1286,3 +1290,69 @@ def n4_catch_all(e: Engine, rep: Report):
     if n_f < 3:
         rep.error('anchor vanished: factory(...) in the I/O arms of _run '
                   '(%d < 3)' % n_f)
+
+
+# -------------------------------------------------------------------- N9
+def n9(e: Engine, rep: Report, rule: str = 'N9'):
+    """Every recipient of the envelope is offered to the server: the pass
+    over envelope.recipients that sends RCPT runs to completion.  A
+    recipient that was never offered has no reply of its own; its entry in
+    the result table stays empty and is filled with the end-of-data verdict -
+    it is reported delivered although the server never heard of it."""
+    ctx = e.method_ctx(SMTPC, '_send_envelope')
+    g = e.build(ctx, inline=e.inline_same_self(
+        deny=_peer_talkers(e, SMTPC) - {'_send_envelope'}), max_depth=3,
+        raises=lambda b, n, r: set())
+    where = ctx.func.qname
+    rep.functions.add(where)
+    n = 0
+    fn = ctx.func.node
+    for x in walk_own(fn):
+        if isinstance(x, (ast.ListComp, ast.GeneratorExp, ast.DictComp)) \
+                and any('recipients' in ast.unparse(gen.iter)
+                        for gen in x.generators) and \
+                '_rcptto' in ast.unparse(x):
+            n += 1
+            rep.evaluations += 1
+            rep.check(not any(gen.ifs for gen in x.generators), rule, where,
+                      'RCPT is sent for every recipient',
+                      'the comprehension that sends RCPT filters the '
+                      'recipients: the ones left out are never offered to '
+                      'the server but are reported with the end-of-data '
+                      'result', loc=ctx.func.loc(x),
+                      reason='unfiltered pass over envelope.recipients')
+    for lp in g.of_kind('iter'):
+        if not (isinstance(lp.ast, ast.For) and
+                'recipients' in ast.unparse(lp.ast.iter)):
+            continue
+        calls = [c for c in g.nodes if c.kind in ('call', 'call_enter') and
+                 e.call_name(c) in ('_rcptto', 'rcptto') and any(
+                     sc.kind == 'loop' and sc.ast is lp.ast
+                     for sc in c.scopes)]
+        if not calls:
+            continue
+        n += 1
+        rep.evaluations += 1
+        leaves = [s for s in ast.walk(lp.ast)
+                  if isinstance(s, (ast.Break, ast.Return))]
+        # (a break / return that belongs to a loop nested inside is fine)
+        inner = [s for s in ast.walk(lp.ast)
+                 if isinstance(s, (ast.For, ast.While)) and s is not lp.ast]
+        own = [s for s in leaves if isinstance(s, ast.Return) or not any(
+            any(y is s for y in ast.walk(i)) for i in inner)]
+        counts = common.per_iteration_counts(
+            g, lp, lambda c: 1 if c in calls and c.kind == 'call' or (
+                c in calls and c.kind == 'call_enter') else 0)
+        rep.check(not own and 0 not in counts, rule, where,
+                  'RCPT is sent for every recipient',
+                  'the loop that sends RCPT can stop early (%s) or skip a '
+                  'recipient: the recipients it never reached are not '
+                  'offered to the server, their entries stay empty and are '
+                  'filled with the end-of-data result - reported delivered '
+                  'although the server never saw them' % (
+                      'line %d' % own[0].lineno if own else 'an iteration '
+                      'without RCPT'), loc=lp.loc(),
+                  reason='no break / return, one RCPT per iteration')
+    if n < 1:
+        rep.error('anchor vanished: the pass over envelope.recipients that '
+                  'sends RCPT in _send_envelope')
